@@ -248,8 +248,7 @@ _MERGE_HEAD = ("  for block_idx, block_idx_to_merge in merge_list:\n"
                "    # Remove JUMP_BACKWARD instruction as we don't want to execute it.\n")
 
 VARIANTS = [
-    # today's tree fires (that is why the module is parked); the repaired
-    # shapes must be silent
+    # today's tree fires (known finding D64); the repaired shape must be silent
     {"name": "twin-fixed-merge-each-handler-block-once", "rule": "R16.22", "file": BLOCKS,
      "expect": "silent", "old": _MERGE_HEAD,
      "new": "  merged = set()\n"
@@ -258,20 +257,11 @@ VARIANTS = [
             "      blocks[block_idx].code[-1].target = blocks[block_idx_to_merge].code[0]\n"
             "      continue\n"
             "    merged.add(block_idx_to_merge)\n"},
-    {"name": "twin-fixed-no-copy-jump-retargeted", "rule": "R16.22", "file": BLOCKS,
-     "expect": "silent",
+    # (variants that fire R16.22 on a respelling of today's copy are not
+    # judgeable while D64 is a known finding: their violation has the known key;
+    # removing the copy altogether is refused by R16.20, whose anchor is the copy)
+    {"name": "copy-removed-jump-retargeted-r16-20-anchor-gone", "rule": "R16.22", "file": BLOCKS,
+     "expect": "error",
      "old": "    blocks[block_idx].code.extend(blocks[block_idx_to_merge].code)\n",
      "new": "    blocks[block_idx].connect_outgoing(blocks[block_idx_to_merge])\n"},
-    {"name": "copy-spelled-as-augmented-assignment", "rule": "R16.22", "file": BLOCKS,
-     "expect": "fire",
-     "old": "    blocks[block_idx].code.extend(blocks[block_idx_to_merge].code)\n",
-     "new": "    blocks[block_idx].code += blocks[block_idx_to_merge].code\n"},
-    {"name": "merge-list-keyed-by-destination-only", "rule": "R16.22", "expect": "fire",
-     "edits": [(BLOCKS, "  merge_list = []\n", "  merge_list = {}\n"),
-               (BLOCKS, "        merge_list.append((block_idx, op_to_block[code.end_async_for_target]))\n",
-                "        merge_list[block_idx] = op_to_block[code.end_async_for_target]\n"),
-               (BLOCKS, "  for block_idx, block_idx_to_merge in merge_list:\n",
-                "  for block_idx, block_idx_to_merge in merge_list.items():\n"),
-               (BLOCKS, "  to_delete = sorted({to_idx for _, to_idx in merge_list}, reverse=True)\n",
-                "  to_delete = sorted(set(merge_list.values()), reverse=True)\n")]},
 ]
